@@ -268,7 +268,11 @@ pub fn scaled_text_and_width(mix: Mix, max_tokens: usize) -> BoxedStrategy<(Stri
     (log_count(max_tokens), any::<u16>())
         .prop_flat_map(move |(n, wx)| {
             (prop::collection::vec(token(mix), n..=n), Just(wx)).prop_map(|(v, wx)| {
-                let t = v.concat();
+                let mut t = v.concat();
+                if wx & 0x100 != 0 {
+                    // one single long paragraph
+                    t = t.replace(['\n', '\r'], " ");
+                }
                 // width between 1/16 and 1.25 x the byte length, or tiny
                 let len = t.len().max(1);
                 let w = match wx % 5 {
@@ -342,6 +346,10 @@ pub fn width() -> BoxedStrategy<usize> {
         1 => Just((1usize << 53) + 1),
         1 => Just(1usize << 32),
         1 => 81usize..=100_000,
+        // just below / at / above powers of two (where a narrower integer
+        // type, an f32 or a table size would start to matter)
+        2 => (prop::sample::select(vec![8u32, 10, 12, 16, 24, 31, 32, 33, 53, 63]), 0usize..=42)
+            .prop_map(|(k, d)| (1usize << k).wrapping_add(d).wrapping_sub(2)),
     ]
     .boxed()
 }
